@@ -27,6 +27,9 @@ def decimal_rel():
     import decimal
     return decimal.Decimal('1E-18')
 
+# results that depend on what the process executed earlier violate this property even when every operation
+# agrees with its in-process reference (see driver.find_cross_execution_dependence)
+CROSS_EXECUTION_IS_VIOLATION = True
 RULE = ('one run = one subject balance query over a generated ledger (multi-currency, lots at cost, reductions) with 0-3 '
         'interfering scans placed by the seed between and around its balance references (IN-subqueries, re-entrant '
         'executions on the same/another connection, some dying half-way by injected storage error or cancellation), plus '
